@@ -192,6 +192,16 @@ class FollowLinks(Suite):
                 out.append(o)
         return out
 
+    @staticmethod
+    def _pattern_is_a_name(op):
+        """a request component that is a wildcard pattern AND, read literally, the name of an entry of the tree"""
+        names = {c for e in op["src"]["tree"] for c in bytes.fromhex(e["p"]).split(b"/")}
+        for q in op["paths"]:
+            for c in bytes.fromhex(q).split(b"/"):
+                if c in names and any(x in c for x in b"*?["):
+                    return True
+        return False
+
     matchers = {
         # F19: the violation disappears when every request is resolved with a fresh memo (model variant), implementation = model
         # (or when the memo is keyed by (link, remainder): the same link crossed twice by ONE request)
@@ -209,7 +219,10 @@ class FollowLinks(Suite):
         "F32": lambda op, impl, model: model.get("metalink") is True and
         ((impl.get("out") == model.get("m") and not impl.get("ferr")) or "too many levels of symbolic links" in str(impl.get("ferr"))
          or (op["src"]["kind"] == "disk" and not impl.get("ferr"))) and
-        (model.get("spec_lit") is True or (model.get("midwild") and model.get("spec_lit_nomid") is True)),
+        (model.get("spec_lit") is True or (model.get("midwild") and model.get("spec_lit_nomid") is True) or
+         # (a REQUEST whose pattern text is at the same time the literal name of a link: the pattern matches nothing and is recorded
+         # as resolved under that very text, which then stands in for the link in the memo - F32 and F19 together)
+         (impl.get("out") == model.get("m") and FollowLinks._pattern_is_a_name(op))),
     }
 
 
